@@ -106,7 +106,12 @@ def eval_side(ca: CodecAnalyser, p: PathResult, expr: ast.expr, var: str, fn: Fu
         v = ca.interp.eval1(st, env, expr)
     except Exception as e:  # noqa: BLE001
         return None
-    return effective_origin(st, v)
+    o = effective_origin(st, v)
+    # on a path whose length is fixed an open-ended slice denotes the same bytes as the closed one: pdu[2:] with len(pdu) == 4 is pdu[2:4]
+    if isinstance(p.len_lo, int) and p.len_lo == getattr(p, "len_hi", None):
+        import re as _re0
+        o = _re0.sub(r"pdu\[(\d+):\]", lambda mo: f"pdu[{mo.group(1)}:{p.len_lo}]", o)
+    return o
 
 
 def effective_origin(st: State, v: Any) -> str:
@@ -132,6 +137,14 @@ def abstract_match(ca: CodecAnalyser, mt: "Matcher", ra: ClassAnalysis, pa: Clas
     n_eval = 0
     for rp in pa.accepted:
         for qp in ra.accepted:
+            # "equal echoed bytes" presupposes that both sides carry the echoed field: a request path without the optional identifier (None) and a
+            # response path with it (or vice versa) are not an echo pair - refusing that combination is what the property demands
+            presence = []
+            for req_e, self_e, fn_ in mt.atoms:
+                a_, b_ = eval_side(ca, qp, req_e, "request", fn_), eval_side(ca, rp, self_e, "self", fn_)
+                presence.append((a_ == "None") != (b_ == "None") and a_ is not None and b_ is not None)
+            if any(presence):
+                continue
             st = rp.state.clone()
             base_facts = len(st.facts)
             oid = st.next_id
@@ -149,9 +162,27 @@ def abstract_match(ca: CodecAnalyser, mt: "Matcher", ra: ClassAnalysis, pa: Clas
                     refusals.append(f"matches() raises {v.exc} ({v.where})")
                     continue
                 val = v.value if isinstance(v, ConstV) else None
+                # the interpreter forks on a comparison of two stored fields it cannot decide; when both fields are None on these paths (an optional
+                # identifier absent on both sides) the comparison is true and the branch that assumed "not equal" does not exist
+                infeasible = False
+                for f in new:
+                    mo = _re.fullmatch(r"not request\.(\w+) == self\.(\w+)", f.text or "")
+                    if mo and f.kind == "opaque" and mo.group(1) in qp.fields and mo.group(2) in rp.fields and \
+                            field_origin(qp.fields[mo.group(1)]) == "None" and field_origin(rp.fields[mo.group(2)]) == "None":
+                        infeasible = True
+                if infeasible:
+                    continue
                 if val is False:
                     wire_dependent = any(_re.search(r"pdu\[|\bL\b|from_bytes|bits<", f.vtext or repr(f)) for f in new if f.kind == "opaque") \
                         or any(f.kind in ("bits", "len") for f in new)
+                    if not wire_dependent:
+                        # an undecided comparison of two stored fields: wire dependent if either field comes from the received bytes
+                        for f in new:
+                            mo = _re.search(r"request\.(\w+) [!=]= self\.(\w+)", f.text or "")
+                            if mo and f.kind == "opaque":
+                                origins = [field_origin(qp.fields[mo.group(1)]) if mo.group(1) in qp.fields else "", field_origin(rp.fields[mo.group(2)]) if mo.group(2) in rp.fields else ""]
+                                if any(_re.search(r"pdu\[|from_bytes|bits<", o) for o in origins):
+                                    wire_dependent = True
                     if not wire_dependent:
                         refusals.append("returns False on a path that does not look at the received bytes: "
                                         + "; ".join(f.text or repr(f) for f in new)[:300])
@@ -379,6 +410,16 @@ def run(m: Model, r: Report, tier: str) -> None:
             elif d.startswith("I2@"):
                 k = int(d[3:])
                 hit = f"from_bytes(pdu[{k}:{k + 2}])" in compared
+                # a request parser that takes the identifier as `pdu[k:]` (its own round-trip guard refuses other widths than 2) against a response
+                # parser that takes exactly pdu[k:k+2]: the comparison is on the same two bytes
+                if not hit:
+                    open_ = f"from_bytes(pdu[{k}:])"
+                    closed_ = f"from_bytes(pdu[{k}:{k + 2}])"
+                    for req_e2, self_e2, fn2 in mt.atoms:
+                        ro2 = {eval_side(ca, pth, req_e2, "request", fn2) for pth in ra.accepted}
+                        so2 = {eval_side(ca, pth, self_e2, "self", fn2) for pth in pa.accepted}
+                        if (open_ in ro2 or closed_ in ro2) and (open_ in so2 or closed_ in so2):
+                            hit = True
             elif d.startswith("B@"):
                 hit = any(o.startswith(f"bits<pdu[{d[2:]}].7") for o in compared)
             elif d == "Isym@2":
